@@ -63,27 +63,27 @@ const (
 // Config is the server / datastore configuration of one scenario (all derived from its seed).
 type Config struct {
 	Backend       string `json:"backend"`
-	Pipeline      bool `json:"pipeline"`
-	LOOpt         bool `json:"lo_opt"`
-	V2Check       bool `json:"v2_check"`
-	QueryCache    bool `json:"query_cache"`
-	IterCache     bool `json:"iter_cache"`
-	LOIterCache   bool `json:"lo_iter_cache"`
-	SharedIter    bool `json:"shared_iter"`
-	DispThrottle  bool `json:"dispatch_throttle"`
-	DSThrottle    bool `json:"ds_throttle"`
-	Breadth       int  `json:"breadth"`
-	MaxReads      int  `json:"max_reads"`
-	Depth         int  `json:"depth"`
-	LODeadlineMs  int  `json:"lo_deadline_ms"`
-	LUDeadlineMs  int  `json:"lu_deadline_ms"`
-	LOMax         int  `json:"lo_max"`
-	LUMax         int  `json:"lu_max"`
-	ReadDelayUs   int  `json:"read_delay_us"`
-	NextDelayUs   int  `json:"next_delay_us"`
-	Parallel      int  `json:"parallel"`
-	Batches       int  `json:"batches"`
-	CallsPerBatch int  `json:"calls_per_batch"`
+	Pipeline      bool   `json:"pipeline"`
+	LOOpt         bool   `json:"lo_opt"`
+	V2Check       bool   `json:"v2_check"`
+	QueryCache    bool   `json:"query_cache"`
+	IterCache     bool   `json:"iter_cache"`
+	LOIterCache   bool   `json:"lo_iter_cache"`
+	SharedIter    bool   `json:"shared_iter"`
+	DispThrottle  bool   `json:"dispatch_throttle"`
+	DSThrottle    bool   `json:"ds_throttle"`
+	Breadth       int    `json:"breadth"`
+	MaxReads      int    `json:"max_reads"`
+	Depth         int    `json:"depth"`
+	LODeadlineMs  int    `json:"lo_deadline_ms"`
+	LUDeadlineMs  int    `json:"lu_deadline_ms"`
+	LOMax         int    `json:"lo_max"`
+	LUMax         int    `json:"lu_max"`
+	ReadDelayUs   int    `json:"read_delay_us"`
+	NextDelayUs   int    `json:"next_delay_us"`
+	Parallel      int    `json:"parallel"`
+	Batches       int    `json:"batches"`
+	CallsPerBatch int    `json:"calls_per_batch"`
 }
 
 type Desc struct {
@@ -610,6 +610,7 @@ func runScenario(w *rec.Writer, seed uint64, tier string) {
 		panic(err)
 	}
 	x := &runner{w: w, r: r, sh: sh, env: env, ds: ds, cfg: cfg}
+	gd := snapshot() // baseline with the datastore's own workers (database/sql connection opener)
 	if os.Getenv("C20_DEBUG") != "" {
 		fmt.Fprintf(os.Stderr, "scenario %d %s %s size=%d tuples=%d small=%v setup=%v\n", seed, kind, sh.S.Shape, sh.Size, len(sh.S.Tuples), sh.Small, time.Since(t0))
 	}
@@ -630,7 +631,7 @@ func runScenario(w *rec.Writer, seed uint64, tier string) {
 	// the truth pass must itself be clean
 	var leakedDesc []string
 	leakedN := 0
-	if l := waitGoroutines(g0, allowRequestScope, grace); len(l) > 0 {
+	if l := waitGoroutines(gd, allowRequestScope, grace); len(l) > 0 {
 		leakedN += len(l)
 		leakedDesc = append(leakedDesc, "after the no-deadline checks: "+describe(l, 4))
 		for _, g := range l {
